@@ -888,3 +888,106 @@ def m_int_cmp(ex, a, m):
     lab = ex.choose([('Less', lt), ('Equal', eq), ('Greater', z3.Not(z3.Or(lt, eq)))])
     o = mk_enum('Ordering', lab, [])
     return o if meth == 'cmp' else some(o)
+
+# ------------------------------------------------------------------------------------------ more iterator adaptors
+@model_rx(r'^<.* as Iterator>::(take_while|skip_while|filter)$')
+def m_iter_pred(ex, a, m):
+    src, f, kind = a[0], a[1], m.group(1)
+    def gen():
+        skipping = kind == 'skip_while'; done = False
+        while True:
+            x = iter_next(ex, src)
+            if x is None: return
+            if kind == 'filter' or kind == 'take_while' or skipping:
+                r = pybool(ex, ex.call_value(f, [Ptr(Cell(x), 'ref')]))
+                if kind == 'take_while':
+                    if not r: return
+                elif kind == 'filter':
+                    if not r: continue
+                else:
+                    if r: continue
+                    skipping = False
+            yield x
+    return IterV(gen())
+@model_rx(r'^<.* as Iterator>::filter_map$')
+def m_filter_map(ex, a, m):
+    src, f = a[0], a[1]
+    def gen():
+        while True:
+            x = iter_next(ex, src)
+            if x is None: return
+            r = ex.call_value(f, [x])
+            if is_variant(ex, r, 'Some'): yield r.fields[0].v
+    return IterV(gen())
+@model_rx(r'^<.* as Iterator>::(zip|chain)$')
+def m_zip_chain(ex, a, m):
+    x, y = a[0], a[1]
+    if not isinstance(y, IterV): y = make_iter(ex, y)
+    def gz():
+        while True:
+            p = iter_next(ex, x)
+            if p is None: return
+            q = iter_next(ex, y)
+            if q is None: return
+            yield Agg('tuple', None, None, [Cell(p), Cell(q)])
+    def gc():
+        while True:
+            p = iter_next(ex, x)
+            if p is None: break
+            yield p
+        while True:
+            q = iter_next(ex, y)
+            if q is None: return
+            yield q
+    return IterV(gz() if m.group(1) == 'zip' else gc())
+@model_rx(r'^<.* as Iterator>::(last|nth)$')
+def m_last_nth(ex, a, m):
+    src = a[0] if isinstance(a[0], IterV) else a[0].cell.v
+    if m.group(1) == 'last':
+        last = None
+        while True:
+            x = iter_next(ex, src)
+            if x is None: return opt(last)
+            last = x
+    n = pyint(ex, a[1])
+    for _ in range(n):
+        if iter_next(ex, src) is None: return none()
+    return opt(iter_next(ex, src))
+@model_rx(r'^<.* as Iterator>::(find|position)$')
+def m_find(ex, a, m):
+    src, f = a[0].cell.v, a[1]; k = 0
+    while True:
+        x = iter_next(ex, src)
+        if x is None: return none()
+        arg = Ptr(Cell(x), 'ref') if m.group(1) == 'find' else x
+        if pybool(ex, ex.call_value(f, [arg])): return some(x) if m.group(1) == 'find' else some(Int(k, 'usize'))
+        k += 1
+@model_rx(r'^<.* as Iterator>::for_each$')
+def m_for_each(ex, a, m):
+    while True:
+        x = iter_next(ex, a[0])
+        if x is None: return UNIT
+        ex.call_value(a[1], [x])
+@model_rx(r'^<.* as Iterator>::step_by$')
+def m_step_by(ex, a, m):
+    src, n = a[0], pyint(ex, a[1])
+    def gen():
+        while True:
+            x = iter_next(ex, src)
+            if x is None: return
+            yield x
+            for _ in range(n - 1):
+                if iter_next(ex, src) is None: return
+    return IterV(gen())
+@model_rx(r'^<.* as DoubleEndedIterator>::next_back$')
+def m_next_back(ex, a, m):
+    it = a[0].cell.v
+    if not isinstance(it, IterV): raise Unsupported('next_back')
+    items = []
+    while True:
+        x = iter_next(ex, it)
+        if x is None: break
+        items.append(x)
+    if not items: return none()
+    last = items.pop(); it.it = iter(items); it.peeked = []
+    return some(last)
